@@ -388,3 +388,57 @@ func ErrKind(err error) string {
 	}
 	return fmt.Sprintf("type%d", e.Type())
 }
+
+// WrapHandler delegates to a real handler and can panic inside any method (for C04).
+type WrapHandler struct {
+	Inner   gensign.Handler
+	PanicIn string // name | authenticate | generate | csrs | addcerts
+}
+
+type wrapKey struct {
+	inner csr.AgentKey
+	w     *WrapHandler
+}
+
+func (k wrapKey) CSRs() []*proto.SSHCertificateSigningRequest {
+	if k.w.PanicIn == "csrs" {
+		panic("verif: CSRs panics")
+	}
+	return k.inner.CSRs()
+}
+
+func (k wrapKey) AddCertsToAgent(certs []ssh.PublicKey, comments []string) error {
+	if k.w.PanicIn == "addcerts" {
+		panic("verif: AddCertsToAgent panics")
+	}
+	return k.inner.AddCertsToAgent(certs, comments)
+}
+
+func (w *WrapHandler) Name() string {
+	if w.PanicIn == "name" {
+		panic("verif: Name panics")
+	}
+	return w.Inner.Name()
+}
+
+func (w *WrapHandler) Authenticate(p *csr.ReqParam) error {
+	if w.PanicIn == "authenticate" {
+		panic("verif: Authenticate panics")
+	}
+	return w.Inner.Authenticate(p)
+}
+
+func (w *WrapHandler) Generate(p *csr.ReqParam) ([]csr.AgentKey, error) {
+	if w.PanicIn == "generate" {
+		panic("verif: Generate panics")
+	}
+	ks, err := w.Inner.Generate(p)
+	if err != nil {
+		return nil, err
+	}
+	out := make([]csr.AgentKey, len(ks))
+	for i, k := range ks {
+		out[i] = wrapKey{k, w}
+	}
+	return out, nil
+}
